@@ -14,7 +14,7 @@ type pgen struct {
 	sg  *sgen
 }
 
-var postKeys = []string{"a", "b", "c", "d", "x-1", "é"}
+var postKeys = []string{"a", "b", "c", "d", "x-1", "é", "", "a.b"}
 
 func (g *pgen) scalarSchema() (jmap, func() interface{}) {
 	switch g.rng.Intn(4) {
@@ -49,6 +49,25 @@ func (g *pgen) objectSchema(depth int, compose bool) (jmap, func() interface{}) 
 				l := make([]interface{}, g.rng.Intn(3))
 				for j := range l {
 					l[j] = ig()
+				}
+				return l
+			}
+		case depth > 0 && g.rng.Intn(5) == 0:
+			// an array directly inside an array (and a tuple now and then): the objects are two levels of elements down
+			is, ig := g.objectSchema(depth-1, compose)
+			inner := jmap{"type": "array", "items": is}
+			if g.rng.Intn(3) == 0 {
+				inner = jmap{"type": "array", "items": []interface{}{is, is}}
+			}
+			ps = jmap{"type": "array", "items": inner}
+			pg = func() interface{} {
+				l := make([]interface{}, g.rng.Intn(3))
+				for j := range l {
+					in := make([]interface{}, g.rng.Intn(3))
+					for k := range in {
+						in[k] = ig()
+					}
+					l[j] = in
 				}
 				return l
 			}
